@@ -83,7 +83,13 @@ def _small(g, pmax, lo=1, cap=5):
 
 
 def sample_matrix(g, n, p):
-    return np.array([[G.r2(g, -5, 5) for _ in range(p)] for _ in range(n)], dtype=float).reshape(n, p)
+    a = np.array([[G.r2(g, -5, 5) for _ in range(p)] for _ in range(n)], dtype=float).reshape(n, p)
+    r = g.random()
+    if r < 0.12:
+        return np.asfortranarray(a)
+    if r < 0.2:
+        return a.astype(np.float32)
+    return a
 
 
 RATIOS = [[1.0], [0.5, 0.5], [0.25, 0.75], [0.5, 0.25, 0.25], [0.75, 0.25]]
@@ -435,4 +441,7 @@ def enc_arg(x):
 def gen_utils_call(g, pmax, name=None):
     name = name or g.choice(NAMES)
     args, kw = TEMPLATES[name](g, max(1, pmax))
+    if g.random() < 0.12:
+        # list-like arguments handed over as tuples
+        args = [tuple(a) if isinstance(a, list) else a for a in args]
     return {"op": "u.call", "fn": name, "args": [enc_arg(a) for a in args], "kw": {k: enc(v) for k, v in kw.items()}}
